@@ -21,6 +21,8 @@ Feature switches (names listed in ``avoid`` are switched off):
   branch_persist     name first assigned in a branch in one pass and read in a later pass
   list_alias         b = a for lists
   list_local         list first assigned inside the main loop / a helper
+  str_param_passthrough a helper handing one of its own parameters on to another helper as a string (the caller's default-typed
+                     translation requests an int variant of the callee whose string operations do not compile)
   forward_ref_nonint a helper calling a float-returning helper that is defined further down (typed int at that point)
   helper_mixed_sig   (retired: mixed signatures are generated through gen_poly_helper, whose bodies are valid for ints and floats)
   try_except         try/except blocks
@@ -59,6 +61,7 @@ ALL_FEATURES = [
     "list_local",
     "helper_mixed_sig",
     "forward_ref_nonint",
+    "str_param_passthrough",
     "try_except",
     "range_bound_mutation",
     "double_eval",
@@ -115,6 +118,7 @@ class ProgGen:
         self.list_len: Dict[str, int] = {}  # minimal guaranteed length
         self.list_elem: Dict[str, str] = {}
         self.no_comp_var: Set[str] = set()
+        self.cur_params: Set[str] = set()
         self.budget = self.opts.max_stmts
         self.features_used: Set[str] = set()
         self.in_helper = False
@@ -486,7 +490,12 @@ class ProgGen:
         h = self.rng.choice(cands)
         args = []
         for _pname, ptype in h.params:
-            args.append(self.expr(env, ptype, depth + 2, no_call=True))
+            arg_env = env
+            if self.in_helper and ptype == "str" and not self.feature("str_param_passthrough", 0.5):
+                # the caller is first translated with default (int) parameters: handing one of them on as a string
+                # requests a callee variant that cannot compile (open finding KF-uncalled-helper)
+                arg_env = {k: v for k, v in env.items() if k not in self.cur_params}
+            args.append(self.expr(arg_env, ptype, depth + 2, no_call=True))
         return f"{h.name}({', '.join(args)})"
 
     # ------------------------------------------------------------ statements
@@ -1021,6 +1030,7 @@ class ProgGen:
             params = [(n, t if t in ("int", "bool") else "int") for n, t in params]
         pure = ret != "void" and self.chance(0.6)
         self.emit(0, f"def {name}({', '.join(n for n, _t in params)}):")
+        self.cur_params = {n for n, _t in params}
         env = {n: t for n, t in genv.items() if t in ("int", "float", "bool", "str")}
         # helpers only read globals; writes need `global`
         writable = None
@@ -1105,7 +1115,7 @@ class ProgGen:
         _ = protected
 
     # ---- helpers whose calls appear only in places other than an assignment ------------------------
-    def gen_context_helper(self, env, in_loop_env=None) -> List[Tuple[int, str]]:
+    def gen_context_helper(self, env, in_loop: bool = False) -> List[Tuple[int, str]]:
         """A pure helper with a non-int parameter whose *only* calls sit in a condition, an argument, an f-string
         field or a list literal; returns the (depth, line) statements that use it."""
 
@@ -1155,7 +1165,7 @@ class ProgGen:
             return [(0, f'mon.write(f"v={{{call}}};")')]
         if how == "sleep" and ret != "str":
             return [(0, f"sleep({call})"), (0, 'mon.write("slept")')]
-        if how == "listlit" and ret != "str":
+        if how == "listlit" and ret != "str" and (not in_loop or "list_local" in self.on):
             return [(0, f"{k}s = [{call}, {call}]"), (0, f"mon.write({k}s[0])"), (0, f"mon.write({k}s[1])")]
         if how == "ternary":
             return [(0, f'mon.write("c-yes" if {cmp} else "c-no")')]
@@ -1370,7 +1380,10 @@ class ProgGen:
         deferred_loop: List[Tuple[int, str]] = []
         if o.use_helpers and o.use_floats and o.use_strings:
             if self.chance(0.3):
-                (deferred if self.chance(0.7) else deferred_loop).extend(self.gen_context_helper(env))
+                if self.chance(0.7):
+                    deferred.extend(self.gen_context_helper(env))
+                else:
+                    deferred_loop.extend(self.gen_context_helper(env, in_loop=True))
             if self.chance(0.25):
                 deferred.extend(self.gen_recursive_helper(env))
             if self.chance(0.3):
